@@ -3,7 +3,7 @@
     is the flat output: Model/Top.assemble_file passes the same bytes); the GLOBAL records are a
     permutation of the declared entries, sorted by (undefined last, value) and stable. *)
 From Coq Require Import List ZArith String Bool Permutation Sorting.Sorted.
-From Gosk Require Import Base.Bytes Model.Ast Model.Eval Model.Asm Model.Coff Model.Top Model.Encoder Lemmas.CoffLemmas.
+From Gosk Require Import Base.Bytes Model.Ast Model.Eval Model.Asm Model.Coff Model.Top Model.Encoder Lemmas.CoffLemmas Lemmas.CoffRoundTrip Spec.CoffRead.
 Import ListNotations.
 Local Open Scope Z_scope.
 
@@ -41,3 +41,14 @@ Proof.
   apply NoDup_app_iff_local; assumption.
 Qed.
 Print Assumptions C09_global_dedup.
+
+(** through the independent reader: the external symbols of the object are exactly the GLOBAL names (as a multiset; their
+    order is the subject of C09_symbols_sorted), each of class 2 without auxiliary record *)
+Theorem C09_reader_sees_globals : forall text srcfile globals symtab,
+  let f := coff_write text srcfile globals symtab in
+  Forall name_ok globals -> zlen f < 2 ^ 32 ->
+  exists o, coff_read f = Some o
+    /\ Permutation (map y_name (skipn 4 (o_symbols o))) (map bytes_of_string globals)
+    /\ Forall (fun y => y_class y = 2 /\ y_naux y = 0) (skipn 4 (o_symbols o)).
+Proof. exact coff_read_global_names. Qed.
+Print Assumptions C09_reader_sees_globals.
